@@ -12,16 +12,22 @@ import specchar  # noqa: E402
 
 NAME = "mangle"
 BUILD_TARGETS = ["AldorVerif.Props.C16"]
-SOURCES = ["genc.c", "strops.c", "buffer.c", "emit.c", "ccomp.c"]
+SOURCES = ["genc.c", "strops.c", "buffer.c", "emit.c", "ccomp.c", "ccode.c"]
 MODELLED = ("genc.c: genCSetIdLen genCSetSMax gc0InitSpecialChars(+ccSpecCharIdTable, regenerated) gc0UnderIdLen "
             "gc0ValidIdInBuf gc0IdHashInBuf gc0VarId gc0MultVarId, the splitting loop of gc0ExternDecls; "
-            "strops.c: strHash; buffer.c: bufPuti (i>=0); emit.c: emitTheC file naming "
+            "the INIT__<n>_<module> name at its call sites; strops.c: strHash; buffer.c: bufPuti (i>=0); "
+            "emit.c: emitTheC file naming; ccode.c: ccoPrToken string/character literal escaping "
             "(not: -Cfname override, prototype generation in ccode.c, negative indices)")
 THEOREMS = [("AldorVerif.Props.C16", "AldorVerif.Mangle." + t) for t in (
     "local_names_injective", "varId_injective", "kinds_distinct", "kinds_spellings_distinct",
     "spec_char_injective", "spec_char_injective_statement_refuted",
     "global_collision_iff", "global_collision_nohash_iff", "global_names_injective_unlimited",
-    "witness_collides", "witness_name", "global_names_injective_statement_refuted")] + \
+    "witness_collides", "witness_name", "global_names_injective_statement_refuted",
+    "init_sites_agree", "init_name_eq_iff", "module_init_names_injective_fit",
+    "module_init_names_injective_statement_refuted")] + \
+    [("AldorVerif.Props.C16", "AldorVerif.CLit." + t) for t in (
+    "literal_escape_dialects_agree", "literal_escape_roundtrip_partial",
+    "literal_escape_roundtrip_statement_refuted")] + \
     [("AldorVerif.Props.C16", "AldorVerif.CSplit." + t) for t in (
     "split_partition", "split_off", "split_part_guarantee", "split_count", "init_distinct",
     "split_names_distinct_partial", "split_names_distinct_short", "split_names_distinct",
@@ -30,6 +36,8 @@ THEOREMS = [("AldorVerif.Props.C16", "AldorVerif.Mangle." + t) for t in (
 SIG_COLLISION = "mangle|global-hash-collision"
 SIG_FILECLASH = "mangle|split-file-name-clash"
 SIG_IDLEN = "mangle-e2e|idlen-import-mismatch"
+SIG_OCTAL = "mangle|literal-octal-escape"
+SIG_INITCLASH = "mangle|init-name-collision"
 
 VAR_HASH = 0x39AA3F9
 KINDS = ["F", "C", "CF", "X", "P", "R", "T", "J", "L", "l", "e", "tmp", "tmpClos", "GA", "GB", "GRRFmt",
@@ -114,6 +122,114 @@ def gen_names(rng, table, thorough):
 
 def kept_only(name, keptset):
     return all(ch in keptset for ch in name)
+
+
+# ------------------------------------------------------------------ literals and initialiser names
+def gen_lits(rng, thorough):
+    texts = []
+    printable = bytes(range(32, 127))
+    texts += [printable, printable[::-1], b"??= ??/ ??' ??( ??) ??! ??< ??> ??- ?\\? %d %s %% _ __",
+              b"tab[\t] nl[\n] cr[\r] bs[\b] vt[\v] ff[\f] bel[\a]", b"\\", b"\\\\", b"\"", b"'", b"?", b"??", b"%", b"_",
+              b"a\"b'c\\d?e", b"\x01" + b"7", b"\x05" + b"65", b"\x7f", b"\xe9", b"\x01x", b"\x07.", b"\x1b[0m", b"\x1f8"]
+    for c in range(1, 256):
+        texts.append(bytes([c]))
+    for c in list(range(1, 32)) + [34, 39, 63, 92, 127, 128, 200, 255]:
+        for d in b"07 89a?\\\"'":
+            texts.append(bytes([c, d]))
+    alpha = bytes(range(1, 256))
+    hot = b"?\\\"'%_01234567\t\n\x01\x07\x7f"
+    for _ in range(600 if not thorough else 6000):
+        n = rng.randint(1, 24)
+        texts.append(bytes(rng.choice(hot) if rng.random() < .5 else rng.choice(alpha) for _ in range(n)))
+    reqs, seen = [], set()
+    for tx in texts:
+        if tx in seen:
+            continue
+        seen.add(tx)
+        for std in (0, 1):
+            reqs.append("lit %d s %s" % (std, tx.hex()))
+            if len(tx) == 1:
+                reqs.append("lit %d c %s" % (std, tx.hex()))
+    return reqs
+
+C_SIMPLE = {ord("n"): 10, ord("t"): 9, ord("v"): 11, ord("b"): 8, ord("r"): 13, ord("f"): 12, ord("a"): 7,
+            34: 34, 39: 39, 92: 92, 63: 63}
+
+def c_denote(tok):
+    """bytes a C compiler denotes by a printed literal token (quotes included); None = ill-formed"""
+    if len(tok) < 2 or tok[0] != tok[-1] or tok[0] not in (34, 39):
+        return None
+    q, body, out, i = tok[0], tok[1:-1], [], 0
+    while i < len(body):
+        c = body[i]
+        if c == 92:
+            i += 1
+            if i >= len(body): return None
+            e = body[i]
+            if 48 <= e <= 55:
+                v, k = 0, 0
+                while i < len(body) and 48 <= body[i] <= 55 and k < 3:
+                    v = 8 * v + body[i] - 48; i += 1; k += 1
+                out.append(v & 0xFF if v < 256 else v)
+                continue
+            if e not in C_SIMPLE: return None
+            out.append(C_SIMPLE[e]); i += 1
+        elif c == q or c == 10:
+            return None
+        else:
+            out.append(c); i += 1
+    return out
+
+def lit_unsafe(tx):
+    """texts for which the recorded printer defect applies"""
+    for i, c in enumerate(tx):
+        if c >= 127: return True
+        if c < 8 and i + 1 < len(tx) and 48 <= tx[i + 1] <= 55: return True
+    return False
+
+def gen_inits(rng, thorough):
+    stem = "modulenamemodulenamemodulenamemodulenamemodulenamemodulename"
+    units = [stem[:n - 2] + "%02d" % n for n in (3, 8, 16, 21, 22, 23, 24, 30, 48)] + \
+            ["u", "a-b", "sal_lang", "x.y", "my-long_unit.name-with-specials", "9lives", "modulenamemodulenamemoLibraryPart"]
+    imports = [[], ["runtime"], ["sal_lang", "sal_base"], ["modulenamemodulenamemoClientPart"],
+               [stem[:28] + "30", stem[:21] + "X"], ["a-b", "a_b"]]
+    idlens = QUANT_IDLEN + [12, 20, 29]
+    reqs = []
+    for u in units:
+        for im in imports:
+            for L in (QUANT_IDLEN if not thorough else idlens):
+                reqs.append("inits %d %d %s %s" % (L, rng.choice((0, 1, 2, 3)), hx(u), " ".join(hx(x) for x in im)))
+        reqs.append("inits %d %d %s %s" % (rng.choice(idlens), 1, hx(u), hx("runtime")))
+    return [r.rstrip() for r in reqs]
+
+def check_inits_output(toks, out):
+    """(ok, why, clash): one name per part, one per module, main's name among them"""
+    L = int(toks[1]); smax = int(toks[2])
+    smax = 1 if smax < 0 else smax
+    un = lambda h: bytes.fromhex(h).decode("latin-1") if h != "-" else ""
+    unit = un(toks[3]); imps = [un(h) for h in toks[4:]]
+    if " ; " not in out:
+        return False, "unparsable answer", False
+    a, b = out.split(" ; ")
+    A, B = a.split(), b.split()
+    parts = (4 - 1) // smax if smax > 0 and 4 > smax else 0
+    if len(B) != 1 or B[0] not in A:
+        return False, "the generated main refers to %s, the unit defines/mentions %s" % (B, A[:6]), False
+    byk = {}
+    for nm in A:
+        m = re.match(r"INIT__(\d+)_", nm)
+        if not m:
+            return False, "malformed initialiser name " + nm, False
+        byk.setdefault(int(m.group(1)), []).append(nm)
+    for k in range(1, parts + 1):
+        if len(byk.get(k, [])) != 1:
+            return False, "part %d: definition, declaration and call use the names %s" % (k, byk.get(k)), False
+    if set(byk) - set(range(parts + 1)):
+        return False, "initialiser numbers %s for %d parts" % (sorted(byk), parts), False
+    mods = {unit, "rtexns"} | set(imps)
+    if len(byk.get(0, [])) > len(mods):
+        return False, "%d different INIT__0 names for %d modules: %s" % (len(byk[0]), len(mods), byk[0]), False
+    return True, "", len(byk.get(0, [])) < len(mods)
 
 # ------------------------------------------------------------------ split requests
 def gen_splits(rng, thorough):
@@ -287,6 +403,8 @@ def run_part(ctx, build):
                 for nm in ("", "x", "aVeryLongExportedFunctionNameNumberOne", "ok?", "1"):
                     lines.append("local %d %s %d %s" % (L, hx(kind), ix, hx(nm)))
     lines += gen_splits(rng, thorough)
+    lines += gen_lits(rng, thorough)
+    lines += gen_inits(rng, thorough)
 
     c = common.run_impl_lines(exe, lines, timeout=1800)
     m, tags = common.split_model(common.run_model("mangle", "\n".join(lines) + "\n"))
@@ -302,6 +420,7 @@ def run_part(ctx, build):
         if other is not None:
             partner.setdefault(k, other)
     inj_valid0, inj_glob0 = {}, {}
+    lit_denote = {}
     glob_lim = {}                   # (idlen, out) -> (name, k)
     loc_multi, loc_var, loc_cross = {}, {}, {}
     kind_spelling = {}
@@ -384,6 +503,49 @@ def run_part(ctx, build):
                     p = loc_cross.setdefault((L, mv), (kind, ix, k))
                     if (p[0], p[1]) != (kind, ix):
                         bad(k, "%s is the name of (%s,%d) and of (%s,%d)" % (mv, p[0], p[1], kind, ix), p[2]); bad(p[2], "cross-kind clash", k)
+        elif op == "lit":
+            tx = bytes.fromhex(toks[3])
+            try:
+                tok = bytes.fromhex(co)
+            except ValueError:
+                bad(k, "answer is not hex"); continue
+            want_q = 39 if toks[2] == "c" else 34
+            den = c_denote(tok)
+            if not tok or tok[0] != want_q:
+                bad(k, "literal is not quoted with the right quote")
+            elif den is None:
+                bad(k, "printed literal %r is not a well-formed C literal" % tok)
+            else:
+                p = lit_denote.setdefault((toks[2], toks[3]), (den, k))
+                if p[0] != den:
+                    bad(k, "old and standard C print literals with different meanings: %r vs %r" % (p[0][:20], den[:20]), p[1])
+                    bad(p[1], "old and standard C print literals with different meanings", k)
+                if den != list(tx):
+                    if lit_unsafe(tx) and co == m[k]:
+                        st["lit_octal_defect"] = st.get("lit_octal_defect", 0) + 1
+                        ctx.finding(SIG_OCTAL,
+                            "ccoPrToken prints a non-printable byte as \\%%#o (1 to 4, or 11, octal digits): the C compiler reads the "
+                            "token text %r back as %r: `%s` -> %r (literal_escape_roundtrip_statement_refuted)"
+                            % (tx, bytes(x & 255 for x in den), ln, tok),
+                            {"kind": "impl-violates-property", "line": ln, "impl": co, "printed": repr(tok), "denotes": den,
+                             "replay_cmd": "echo '%s' | <mangle_drv built by ./check C16>" % ln})
+                    else:
+                        bad(k, "the printed literal %r denotes %r, not the token text %r" % (tok, bytes(x & 255 for x in den), tx))
+        elif op == "inits":
+            ok, why, clash = check_inits_output(toks, co)
+            L = int(toks[1])
+            if not ok:
+                bad(k, why)
+            elif clash and (L == 0 or L >= 30):
+                st["init_clashes"] = st.get("init_clashes", 0) + 1
+                if co == m[k]:
+                    ctx.finding(SIG_INITCLASH,
+                        "two different units get the same initialiser name (INIT__0_ + the first idlen-8 characters of the unit name, "
+                        "no hash): `%s` -> %s (module_init_names_injective_statement_refuted)" % (ln, co[:200]),
+                        {"kind": "impl-violates-property", "line": ln, "impl": co,
+                         "replay_cmd": "echo '%s' | <mangle_drv built by ./check C16>" % ln})
+                else:
+                    bad(k, "two different units get the same initialiser name")
         elif op in ("split", "splitS"):
             ok, why, clash = check_split_output(toks, co)
             if not ok:
@@ -615,9 +777,55 @@ twice(x: MachineInteger): MachineInteger == x + x;
 stdout << twice 21 << newline;
 '''
 
+def aldor_str(bs):
+    """Aldor string literal for a byte string (no newline inside); `_` is Aldor's escape character"""
+    out = []
+    for c in bs:
+        if c == 34: out.append('_"')
+        elif c == 95: out.append('__')
+        else: out.append(chr(c))
+    return '"' + "".join(out) + '"'
+
+def prog_lits():
+    """string and character literals with every printable ASCII character, trigraph-like
+    sequences, printf-like sequences, backslashes, quotes and control characters"""
+    L = ['#include "aldor"', '#include "aldorio"', "import from String, Character;", ""]
+    printable = bytes(range(32, 127))
+    for chunk in (printable[:32], printable[32:64], printable[64:], printable):
+        L.append("stdout << %s << newline;" % aldor_str(chunk))
+    for tx in (b"??= ??/ ??' ??( ??) ??! ??< ??> ??- ?\\? ???", b"%d %s %% %c %5.2f 100%",
+               b"back\\slash \\n \\t \\\\ \\0 \\x41 \\\"", b"quote\"s and 'apostrophes' \"\" ''", b"under_score __ _ _",
+               b"tab[\t] bs[\b] vt[\x0b] ff[\x0c] one[\x01] bel[\x07] esc[\x1b] us[\x1f]", b"\x01x\x02y\x07z\x03 \x04-"):
+        L.append("stdout << %s << newline;" % aldor_str(tx))
+    for c in b"?\\\"'%_a0~ #{":
+        L.append("stdout << char %s;" % aldor_str(bytes([c])))
+    L.append("stdout << newline;")
+    L.append('q: Character := char "?"; b: Character := char "\\";')
+    L.append('stdout << (if q = b then "same" else "different") << q << b << newline;')
+    return "\n".join(L) + "\n"
+
+def prog_litoct():
+    """the texts for which the recorded octal-escape defect applies"""
+    M = ['#include "aldor"', '#include "aldorio"', "import from String, Character;", ""]
+    for tx in (b"adj[\x017]", b"five[\x0565]", b"del[\x7f]", b"hi[\xe9]"):
+        M.append("stdout << %s << newline;" % aldor_str(tx))
+    return "\n".join(M) + "\n"
+
+LONG_UNIT_LENGTHS = (16, 22, 23, 24, 30, 48)
+def long_unit_name(n):
+    return ("modulename" * 6)[:n - 2] + "%02d" % n
+
+LIB_SRC = '#include "aldor"\nimport from MachineInteger;\ntripleIt(x: MachineInteger): MachineInteger == 3 * x;\n'
+def client_src(lib):
+    return ('#include "aldor"\n#include "aldorio"\n#library LLIB "%s.ao"\nimport from LLIB;\nimport from MachineInteger;\n'
+            "stdout << tripleIt 14 << newline;\n" % lib)
+
+def interp_lines(r):
+    return [l for l in r["cout"].split("\n") if l.strip()]
+
 def programs():
     return [("longglob", prog_longglobals()), ("opers", PROG_OPERS), ("qbang", PROG_QBANG),
-            ("closures", PROG_CLOSURES), ("manydefs", prog_manydefs()), ("tiny", PROG_TINY)]
+            ("closures", PROG_CLOSURES), ("manydefs", prog_manydefs()), ("tiny", PROG_TINY), ("lits", prog_lits())]
 
 def aldor_cmd(build, opts, outs, src, post=()):
     R = common.ALDOR_TOP
@@ -633,7 +841,7 @@ def compile_run(build, top, tag, files, opts, main, outs=("-Fx",), pre=(), post=
     d = os.path.join(top, tag)
     os.makedirs(d)
     for fn, txt in files.items():
-        open(os.path.join(d, fn), "w").write(txt)
+        open(os.path.join(d, fn), "w", encoding="latin-1").write(txt)
     log = ""
     for (src, o) in pre:
         rc, out, err = common.run(aldor_cmd(build, opts, o, src), cwd=d, timeout=600)
@@ -874,6 +1082,29 @@ def run_e2e(ctx, build, drv):
         # replay of the file-name clash
         fclash = ex.submit(compile_run, build, top, "fileclash", {"abcde001.as": PROG_OPERS}, ["-Csmax=20"], "abcde001.as")
         fnoclash = ex.submit(compile_run, build, top, "nofileclash", {"opersfile.as": PROG_OPERS}, ["-Csmax=20"], "opersfile.as")
+        # literals: the compiled default against the interpreter (the default build is the reference
+        # of every other comparison, so it needs a reference of its own here)
+        litfuts = {}
+        for nm, src in (("lits", prog_lits()), ("litoct", prog_litoct())):
+            litfuts[(nm, "interp")] = ex.submit(compile_run, build, top, nm + "-interp", {nm + ".as": src}, [], nm + ".as", ("-Ginterp",))
+            for dia in ("old", "standard"):
+                if nm == "litoct":
+                    litfuts[(nm, dia)] = ex.submit(compile_run, build, top, "%s-x-%s" % (nm, dia), {nm + ".as": src}, ["-C" + dia], nm + ".as")
+        # long unit names: INIT__0_<unit> is cut at idlen-8 = 22 characters at every site
+        longfuts = {}
+        for n in LONG_UNIT_LENGTHS:
+            un = long_unit_name(n)
+            for o in ([], ["-Cold"], ["-Csmax=5"], ["-Clines"], ["-Cstandard", "-Csmax=5", "-Clines"]):
+                longfuts[(un, tuple(o))] = ex.submit(compile_run, build, top, "long%d-%s" % (n, "".join(o).replace("=", "")),
+                                                     {un + ".as": PROG_TINY}, o, un + ".as")
+        twofuts = {}
+        for lib, cli in ((long_unit_name(30), "clientofthelongnamedlibrary32xx"), (long_unit_name(23), "c"),
+                         ("modulenamemodulenamemoLibraryPart", "modulenamemodulenamemoClientPart")):
+            for o in ([], ["-Cold", "-Clines"], ["-Cstandard"]):
+                if "LibraryPart" in lib and o:
+                    continue
+                twofuts[(lib, cli, tuple(o))] = ex.submit(compile_run, build, top, "two-%s-%s-%s" % (lib[-6:], cli[-4:], "".join(o)),
+                    {lib + ".as": LIB_SRC, cli + ".as": client_src(lib)}, o, cli + ".as", ("-Fx",), ((lib + ".as", ("-Fao", "-Fo")),), (lib + ".o",))
         # the boundary of split mode: smax = N-1, N, N+1 for the unit's own statement estimate N
         shapes, bfuts = {}, {}
         for pn, txt in progs:
@@ -940,6 +1171,63 @@ def run_e2e(ctx, build, drv):
                      "result": {k: r.get(k) for k in ("rc_compile", "rc_run", "stdout", "stderr", "log")}, "expected_stdout": b["stdout"]})
             if not same or len(ctx.cov["samples"]) < 6:
                 ctx.sample({"module": "mangle-e2e", "program": pn, "options": opt_flags(x), "same_as_default": same})
+        # literals against the interpreter
+        ri = litfuts[("lits", "interp")].result()
+        st["runs"] += 1
+        if "lits" in base and base["lits"]["rc_compile"] == 0:
+            want, got = interp_lines(ri), [l for l in base["lits"]["stdout"].split("\n") if l.strip()]
+            st["lits_vs_interp"] = "same" if want == got else "different"
+            if ri["rc_compile"] != 0 or want != got:
+                dl = [(a, b) for a, b in zip(want, got) if a != b][:3]
+                ctx.finding("mangle-e2e|default-vs-interp|lits",
+                            "the literal program prints different text compiled (default options) and interpreted: %s" % dl,
+                            {"kind": "e2e", "program": "lits", "source": prog_lits(), "interp": want, "compiled": got})
+        ro = litfuts[("litoct", "interp")].result()
+        st["runs"] += 1
+        for dia in ("old", "standard"):
+            r = litfuts[("litoct", dia)].result()
+            st["runs"] += 1
+            want, got = interp_lines(ro), [l for l in r["stdout"].split("\n") if l.strip()]
+            st["litoct_" + dia] = "same" if want == got else "interp %r / compiled %r" % (want, got)
+            if ro["rc_compile"] == 0 and (r["rc_compile"] != 0 or want != got):
+                ctx.finding(SIG_OCTAL,
+                    "string literals with a byte 1..7 followed by an octal digit, DEL, or a byte >= 0x80 are printed with a "
+                    "\\%%#o escape of the wrong width: interpreter prints %r, executable (-C%s) prints %r" % (want, dia, got),
+                    {"kind": "e2e", "program": "litoct", "source": prog_litoct(), "options": ["-C" + dia], "interp": want, "compiled": got})
+        # long unit names
+        st["long_unit_runs"] = 0; st["long_unit_same"] = 0
+        okout = base.get("tiny", {}).get("stdout")
+        for (un, o), f in longfuts.items():
+            r = f.result()
+            st["runs"] += 1; st["long_unit_runs"] += 1
+            if r["rc_compile"] == 0 and r["rc_run"] == 0 and (okout is None or r["stdout"] == okout):
+                st["long_unit_same"] += 1
+            else:
+                ctx.finding("mangle-e2e|long-unit-name|%d|%s" % (len(un), " ".join(o) or "default"),
+                    "the tiny program in a file called %s.as (%d characters) built with %s: compile rc %s, run rc %s, stdout %r; %s"
+                    % (un, len(un), " ".join(o) or "the default options", r["rc_compile"], r["rc_run"], r["stdout"][:60], r["log"][-600:]),
+                    {"kind": "e2e", "program": un, "options": list(o), "source": PROG_TINY,
+                     "result": {k: r.get(k) for k in ("rc_compile", "rc_run", "stdout", "stderr", "log")}})
+        for (lib, cli, o), f in twofuts.items():
+            r = f.result()
+            st["runs"] += 1
+            good = r["rc_compile"] == 0 and r["rc_run"] == 0 and r["stdout"].strip() == "42"
+            if "LibraryPart" in lib:
+                st["init_collision_replay"] = "compile rc %s run rc %s stdout %r" % (r["rc_compile"], r["rc_run"], r["stdout"][:20])
+                if not good:
+                    ctx.finding(SIG_INITCLASH,
+                        "two units whose file names share their first 22 characters (%s, %s) both define INIT__0_modulenamemodulenamemo: "
+                        "the program does not link (compile rc %s): %s" % (lib, cli, r["rc_compile"], r["log"][-400:]),
+                        {"kind": "e2e", "files": {lib + ".as": LIB_SRC, cli + ".as": client_src(lib)},
+                         "how": "aldor -Fao -Fo %s.as; aldor -Fx %s.as %s.o" % (lib, cli, lib), "log": r["log"][-1500:]})
+            else:
+                st["two_file_long"] = st.get("two_file_long", 0) + (1 if good else 0)
+                if not good:
+                    ctx.finding("mangle-e2e|long-unit-import|%d|%s" % (len(lib), " ".join(o) or "default"),
+                        "a client importing the unit %s (%d characters) built with %s: compile rc %s, run rc %s, stdout %r; %s"
+                        % (lib, len(lib), " ".join(o) or "the default options", r["rc_compile"], r["rc_run"], r["stdout"][:40], r["log"][-600:]),
+                        {"kind": "e2e", "files": {lib + ".as": LIB_SRC, cli + ".as": client_src(lib)}, "options": list(o),
+                         "result": {k: r.get(k) for k in ("rc_compile", "rc_run", "stdout", "stderr", "log")}})
         # boundary runs
         st["boundary_runs"] = 0; st["boundary_same"] = 0
         for (pn, smax, dia), f in bfuts.items():
